@@ -32,7 +32,7 @@ _FINDINGS_VARIANT = _findings_variant(['apply_stack_effects', 'spec:handler_dept
 
 PROPS['C06'] = dict(
   level='proof',
-  verus=[dict(unit='peephole', min_functions=4), dict(unit='bytecode', min_functions=10), dict(unit='ops', min_functions=30), dict(unit='iterops', min_functions=2), dict(unit='narrowc', min_functions=4), dict(unit='limitsc', min_functions=3), dict(unit='pipeline', min_functions=1), _FINDINGS_VARIANT],
+  verus=[dict(unit='peephole', min_functions=4), dict(unit='bytecode', min_functions=10), dict(unit='ops', min_functions=30), dict(unit='iterops', min_functions=2), dict(unit='mapops', min_functions=1), dict(unit='retops', min_functions=1), dict(unit='narrowc', min_functions=4), dict(unit='limitsc', min_functions=3), dict(unit='pipeline', min_functions=1), _FINDINGS_VARIANT],
   not_decided=['O-06.9 constants/locals/captures/cache indices in range: carried by Compiler methods outside reach',
                'A-shape: labels unique and dense, jump direction (compiler output shape) — assumed BY NAME at the composition point of peephole_compile (pipeline unit), not scattered over callers',
                'A-fiber: push_frame/ensure_stack reserve max_slots above the arguments (raw-pointer code, unverified)',
@@ -57,7 +57,7 @@ PROPS['C04'] = dict(
 
 PROPS['C01'] = dict(
   level='proof',
-  verus=[dict(unit='ops', min_functions=20), dict(unit='native', min_functions=3)],
+  verus=[dict(unit='ops', min_functions=20), dict(unit='native', min_functions=3), dict(unit='retops', min_functions=1), dict(unit='mapops', min_functions=1), dict(unit='iterops', min_functions=2)],
   kani=[dict(crate='front', harnesses=['proofs::o01_p_infix_table', 'proofs::o01_p_higher', 'proofs::o01_p_prefix_table'], kind='complete', assumption_ids=['A-kani']),
         dict(crate='value', harnesses=['proofs::o14_6_falsey', 'proofs::o14_3_num_eq_ieee'], features='', kind='complete', assumption_ids=['A-kani']),
         dict(crate='value', harnesses=['proofs::o14_6_falsey', 'proofs::o14_3_num_eq_ieee'], features='nan_boxing', kind='complete', assumption_ids=['A-kani'])],
@@ -86,7 +86,7 @@ PROPS['C13'] = dict(
 )
 PROPS['C16'] = dict(
   level='proof',
-  verus=[dict(unit='ops', min_functions=40), dict(unit='native', min_functions=4), dict(unit='calls', min_functions=6), dict(unit='ncall', min_functions=3), dict(unit='chanq', min_functions=10), dict(unit='unwind', min_functions=6), dict(unit='hooks', min_functions=3), dict(unit='iterops', min_functions=2), dict(unit='natargs', min_functions=100), dict(unit='natargs', variant='findings', only=['N_ListCollect', 'N_TupleCollect', 'N_IterZip', 'N_IterChain'])],
+  verus=[dict(unit='ops', min_functions=40), dict(unit='native', min_functions=4), dict(unit='calls', min_functions=6), dict(unit='ncall', min_functions=3), dict(unit='chanq', min_functions=10), dict(unit='unwind', min_functions=6), dict(unit='hooks', min_functions=3), dict(unit='iterops', min_functions=2), dict(unit='mapops', min_functions=1), dict(unit='natargs', min_functions=100), dict(unit='natargs', variant='findings', only=['N_ListCollect', 'N_TupleCollect', 'N_IterZip', 'N_IterChain'])],
   kani=[dict(crate='value', harnesses=['proofs::o16_f64_cast_positive'], kind='complete', extra=['-Z', 'unstable-options', '--no-overflow-checks'], timeout=600, jobs=1, assumption_ids=['A-kani'])],
   not_decided=['the ~150 native bodies themselves (the signature gate and the fact that call_native runs a body only behind it ARE proved; that each body assumes no more than its declared signature is not), errors during handling; the front end (C15); debug-only assert_roots accounting (R3d)',
                'A-float: axiom_integral_cast_positive used by op_buffered_channel is discharged by the complete Kani harness o16_f64_cast_positive'],
